@@ -204,3 +204,90 @@ theorem columns_of_text (d : Gen.D) (q : Query) (hq : FragQ d q = true) (hl : Le
     rfl
 
 end C15
+
+/-! ## non-vacuity -/
+namespace C14T
+open C03 (q1 q2 q3 q4 q5 q6 qx qa leafQ_of_B leafQB)
+
+/-- what the lexer makes of a text (after the dialect pre-pass) -/
+def lexOf (d : Gen.D) (s : String) : List Tok := match Lex.lex Gen.cfgS (dialectPre d s.toList) with | .ok ts => ts | _ => []
+
+/-- `SELECT o.k, d FROM (SELECT q.s AS k FROM (SELECT a + b AS s FROM t) AS q) AS o LEFT JOIN u ON o.k = u.a` -/
+def nested : Query :=
+  .single (C16.selJ [(.column (some "o") "k", none), (.column none "d", none)]
+    [C16.der (.single (C16.selJ [(.column (some "q") "s", some "k")]
+      [C16.der (.single (C16.selJ [(.compute (.column none "a") "PLUS" (.column none "b"), some "s")] [C16.tbl "t"] [])) "q"] [])) "o"]
+    [.mk "LEFT_JOIN" (C16.tbl "u") (some (.on (.compare "EQ" (.column (some "o") "k") (.column (some "u") "a"))))])
+
+-- tests (compiled evaluation): on the printed texts of the sample queries (scalar sub-queries, IN / EXISTS sub-queries, derived tables,
+-- set operations, joins, schema-qualified tables), three dialects: the table tokens of the LEXED text are the specified list, and the
+-- driver command `AN tables` answers with it
+#guard [q1, q2, q3, q4, q5, q6, qx, nested].all fun q => [Gen.D.MYSQL, .HIVE, .ORACLE].all fun d =>
+  (!FragQ d q) || (match PR.prQ d q with
+    | .ok str => AT.tableNames (lexOf d str) == tablesOf q &&
+        Drv.anTables "all" d str.toList == Drv.showAn (.ok ((tablesOf q).map Tbl.toVal)) &&
+        Drv.anTables "from" d str.toList == Drv.showAn (.ok ((fromTablesOf q).map Tbl.toVal)) &&
+        Drv.anTables "join" d str.toList == Drv.showAn (.ok ((joinTablesOf q).map Tbl.toVal))
+    | _ => false)
+#guard [q1, q2, q3, q4, q5, q6, qx, nested].all fun q => FragQ .MYSQL q && leafQB .MYSQL q
+#guard (tablesOf q2).map (fun t => (t.schema, t.name)) = [(none, "t"), (none, "u"), (some "s", "tbl"), (none, "u")] &&
+  (fromTablesOf q2).map (fun t => (t.schema, t.name)) = [(none, "t"), (none, "u")] &&
+  (joinTablesOf q2).map (fun t => (t.schema, t.name)) = [(some "s", "tbl"), (none, "u")]
+#guard Drv.anTables "all" .MYSQL (prQL .MYSQL q2) ==
+  "OK L[StandardTable{schema_name=None,table_name=\"t\"},StandardTable{schema_name=None,table_name=\"u\"},StandardTable{schema_name=\"s\",table_name=\"tbl\"},StandardTable{schema_name=None,table_name=\"u\"}]"
+-- the scanner on a hand-written text (aliases without AS, a back-quoted schema-qualified name, sub-queries in ON / WHERE, a set
+-- operation): what it finds is what the model of the analyzer reports
+def handText : String := "SELECT a FROM t1, (SELECT b FROM t2 x JOIN t3 ON x.c = t3.c) d LEFT JOIN `s.t5` AS y ON y.a IN (SELECT c FROM t4 WHERE EXISTS (SELECT 1 FROM t6)) WHERE a > (SELECT max(z) FROM t7) UNION SELECT 1 FROM t8"
+#guard (AT.tableNames (lexOf .MYSQL handText)).map (fun t => (t.schema, t.name)) =
+    [(none, "t1"), (none, "t2"), (none, "t3"), (some "s", "t5"), (none, "t4"), (none, "t6"), (none, "t7"), (none, "t8")] &&
+  C14.tablesOfText .MYSQL handText == some ((AT.tableNames (lexOf .MYSQL handText)).map fun t => (t.schema, t.name))
+-- the scanner looks at nothing but FROM / JOIN / AS / the comma and brackets: commas outside a FROM list announce no table
+#guard (AT.tableNames (lexOf .MYSQL "SELECT f(a, b), c FROM t GROUP BY a, b ORDER BY a, b LIMIT 1, 2")).map (·.name) = ["t"]
+-- C15 / C16 on texts
+#guard Drv.anColumns "where" .MYSQL (prQL .MYSQL q1) == Drv.showAn (.ok ((specQuery .where_ q1).map AN.QCol.toVal))
+#guard (specQuery .where_ q1).map (fun c => (c.table, c.name)) = [(none, some "a"), (none, some "b")]
+#guard (Drv.lineageCall C16.cat2 .MYSQL (prQL .MYSQL nested) []).1 ==
+  "OK L[T[StandardColumn{column_idx=1,column_name=\"k\"},L[SourceColumn{schema_name=None,table_name=\"t\",column_name=\"a\"},SourceColumn{schema_name=None,table_name=\"t\",column_name=\"b\"}]],T[StandardColumn{column_idx=2,column_name=\"d\"},L[SourceColumn{schema_name=None,table_name=\"u\",column_name=\"d\"}]]]"
+
+-- instances of the theorems, every hypothesis decided by the kernel
+set_option maxRecDepth 100000 in
+example : ∃ (str : String) (ts : List Tok), PR.prQ .MYSQL q5 = .ok str ∧ Lex.lex Gen.cfgS (dialectPre .MYSQL str.toList) = .ok ts ∧
+    Drv.firstStmt .MYSQL str.toList = .ok (.select q5) ∧
+    (Drv.firstStmt .MYSQL str.toList >>= fun s => AN.allUsedTables s.toVal) = .ok ((AT.tableNames ts).map Tbl.toVal) ∧
+    AT.tableNames ts = tablesOf q5 ∧
+    (Drv.firstStmt .MYSQL str.toList >>= fun s => AN.fromClauseTables s.toVal) = .ok ((fromTablesOf q5).map Tbl.toVal) ∧
+    (Drv.firstStmt .MYSQL str.toList >>= fun s => AN.joinClauseTables s.toVal) = .ok ((joinTablesOf q5).map Tbl.toVal) ∧
+    Drv.anTables "all" .MYSQL str.toList = Drv.showAn (.ok ((tablesOf q5).map Tbl.toVal)) ∧
+    Drv.anTables "from" .MYSQL str.toList = Drv.showAn (.ok ((fromTablesOf q5).map Tbl.toVal)) ∧
+    Drv.anTables "join" .MYSQL str.toList = Drv.showAn (.ok ((joinTablesOf q5).map Tbl.toVal)) :=
+  C14.tables_of_text .MYSQL q5 (by decide) (leafQ_of_B _ _ (by decide +kernel)) (C01.dialectPre_id _ (by decide) (by decide) _)
+example : (tablesOf q5).map (fun t => (t.schema, t.name)) = [(none, "u"), (none, "u")] := by decide
+/-- the token scan itself, in the kernel: the rendering of `q2` (a set operation as derived table, two joins, a schema-qualified table) -/
+example : (AT.tableToks (toksQ .MYSQL noX q2)).map Tok.source =
+    ["`t`".toList, "`u`".toList, "`s.tbl`".toList, "`u`".toList] := by decide +kernel
+set_option maxRecDepth 100000 in
+example : AT.tableNames (toksQ .HIVE noX q1) = tablesOf q1 := AT.tableNames_toksQ noX q1 (by decide +kernel)
+
+/-- a Bool form of "the specified flow exists" -/
+def flowIsOk (r : Except Flow.FErr Spec.Rel) : Bool := match r with | .ok _ => true | .error _ => false
+theorem flowIsOk_sound {r : Except Flow.FErr Spec.Rel} (h : flowIsOk r = true) : ∃ R, r = .ok R := by
+  cases r with
+  | ok R => exact ⟨R, rfl⟩
+  | error e => cases h
+set_option maxRecDepth 100000 in
+example : ∃ (R : Spec.Rel) (str : String) (st' : LN.St), PR.prQ .MYSQL nested = .ok str ∧ Drv.firstStmt .MYSQL str.toList = .ok (.select nested) ∧
+    LN.selectLineage C16.cat2 (LN.fuelFor nested) nested { asked := [] } = .ok (LN.mkLineage (C16.number R 1) LN.Lineage.empty, st') ∧
+    Drv.lineageCall C16.cat2 .MYSQL str.toList [] =
+      ("OK " ++ Drv.showVal (.list ((C16.number R 1).map fun (c, s) => .tuple [c.toVal, .list (s.map LN.SrcCol.toVal)])), some st') := by
+  obtain ⟨R, hR⟩ := flowIsOk_sound (r := Flow.flowQ C16.cat2 (LN.fuelFor nested) [] nested) (by decide +kernel)
+  exact ⟨R, C16.lineage_of_text .MYSQL nested (by decide) (leafQ_of_B _ _ (by decide +kernel))
+    (C01.dialectPre_id _ (by decide) (by decide) _) C16.cat2 (C16.hyg_sound _ (by decide +kernel)) R hR []⟩
+set_option maxRecDepth 100000 in
+example : ∃ (str : String), PR.prQ .MYSQL q1 = .ok str ∧ Drv.firstStmt .MYSQL str.toList = .ok (.select q1) ∧
+    (Drv.firstStmt .MYSQL str.toList >>= AN.currentColsStmt .having) = .ok (specQuery .having q1) ∧
+    ∀ kind, kind ≠ "hash" → AN.Clause.ofName? kind = some .having →
+      Drv.anColumns kind .MYSQL str.toList = Drv.showAn (.ok ((specQuery .having q1).map AN.QCol.toVal)) :=
+  C15.columns_of_text .MYSQL q1 (by decide) (leafQ_of_B _ _ (by decide +kernel)) (C01.dialectPre_id _ (by decide) (by decide) _) .having
+    (fun _ _ => trivial)
+
+end C14T
